@@ -164,7 +164,8 @@ func findFunctionCallViolation(
 	ctx *testOnlyContext,
 	call *ast.CallExpr,
 ) *TestOnlyViolation {
-	switch fun := call.Fun.(type) {
+	// Parentheses around the callee do not change what is called: (CreateMockData)()
+	switch fun := ast.Unparen(call.Fun).(type) {
 	case *ast.Ident:
 		// Direct function call: CreateMockData()
 		funcName := fun.Name
